@@ -75,6 +75,10 @@ class Interp(LibMixin, CallMixin, StmtMixin, ExprMixin, InterpBase):
                 ctx.assume(z3.Or(*[z3.Select(st.typeof, r) == k for k in ids]))
             else:
                 ctx.assume(z3.Select(st.typeof, r) == cid)
+            if not getattr(self, "_making_toplevel_params", False):
+                # an object handed in from outside after entry (result of a host callback, a module-level object): what it
+                # refers to is not something this path allocated
+                st.ghost.setdefault("_obj_bounds", {}).setdefault(str(base), ALLOC_BASE)
             if p.inv:
                 self.assume_invariant(p.cls, base, p.subclasses)
         elif p.kind in ("list", "tuple"):
@@ -194,7 +198,18 @@ class Interp(LibMixin, CallMixin, StmtMixin, ExprMixin, InterpBase):
         # objects reachable from the pre-state exist before anything this path allocates; objects constructed on
         # this path may refer to what existed when their construction finished
         bounds = self.st.ghost.setdefault("_obj_bounds", {})
-        self.st.ghost["_pre_bound"] = bounds.get(str(v), ALLOC_BASE)
+        if self.st.ghost.get("_constructing", {}).get(str(v)):
+            # an object still being constructed by the function under verification: what it refers to may have been
+            # created by that very function (everything allocated so far "exists already" for it)
+            self.st.ghost["_pre_bound"] = self.st.next_id
+        else:
+            # at entry the objects reachable from the parameters all exist already; once calls have been made (their
+            # effects havocked, invariants re-assumed) a field may also hold something created on the way
+            dflt = self.st.next_id if self.st.ghost.get("_inv_index") is not None else ALLOC_BASE
+            self.st.ghost["_pre_bound"] = bounds.get(str(v), bounds.get(str(z3.simplify(v)), dflt))
+            if self.st.ghost["_pre_bound"] > ALLOC_BASE:
+                priv = sorted(r for r in self.st.fresh_refs if r not in self.st.escaped and r < self.st.ghost["_pre_bound"])
+                self.st.ghost["_pre_exclude"] = priv[-80:]
         S_ = SpecCtx(self, self.top, {}, self.st.snapshot())
         for nm in names:
             inv = CLASS_INVARIANTS.get(nm)
@@ -204,6 +219,7 @@ class Interp(LibMixin, CallMixin, StmtMixin, ExprMixin, InterpBase):
                     g = z3.Implies(S_.new.typeof(v) == S_.cid(nm), g)
                 self.ctx.assume(g)
         self.st.ghost["_pre_bound"] = None
+        self.st.ghost["_pre_exclude"] = None
 
     # ------------------------------------------------------------------ havoc
     def apply_havoc(self, items):
@@ -270,7 +286,6 @@ class Interp(LibMixin, CallMixin, StmtMixin, ExprMixin, InterpBase):
         if isinstance(c, Contract) and c.trusted:
             self.used_trusted.add(c.key)
         self.used_contracts.add(c.key)
-        self.st.mark_escaped(*bound.values())
         # visible-state semantics: class invariants of declared object parameters hold at call boundaries
         for nm, p in c.params.items():
             if p is not None and p.kind == "obj" and nm in bound and not (fi.name == "__init__" and nm == "self"):
@@ -280,10 +295,24 @@ class Interp(LibMixin, CallMixin, StmtMixin, ExprMixin, InterpBase):
         S_.at_call = True
         S_.proving = True
         for cl in c.requires:
+            if getattr(cl, "new_object_fact", False) and fi.name == "__init__":
+                self.ctx.assume(cl.fn(S_))
+                continue
             self.ctx.oblige(self.obl_name("PRE", "%s/%s" % (anchor, cl.label)), "PRE", cl.fn(S_),
                             detail="precondition `%s` of %s" % (cl.label, c.key))
         S_.proving = False
         mods = c.modifies(S_) if c.modifies else []
+        # an argument escapes (may be kept by someone else from now on) when the callee may modify anything; a callee
+        # with an explicit frame can only keep it in what that frame lists - the objects it modifies themselves stay ours
+        if any(m[0] in ("all", "field*", "list*", "dict*") for m in mods):
+            own = None
+            if fi.name == "__init__" and fi.node.args.args:
+                own = bound.get(fi.node.args.args[0].arg)      # a constructor does not give away the object it constructs
+            self.st.mark_escaped(*[v for v in bound.values() if v is not own])
+        elif mods:
+            targets = [z3.simplify(m[1]) for m in mods if len(m) > 1 and z3.is_expr(m[1])]
+            self.st.mark_escaped(*[v for v in bound.values()
+                                   if not any(z3.simplify(v).eq(t) for t in targets)])
         # alternatives: normal return, or one of the declared signals
         conds = [z3.BoolVal(True)]
         for sg in c.signals:
@@ -304,6 +333,15 @@ class Interp(LibMixin, CallMixin, StmtMixin, ExprMixin, InterpBase):
                 isnone, base = self._last_nullable
                 res = VNone if self.ctx.branch(isnone, "fresh result is None") else base
                 S_.result = res
+            # an object created by the callee exists from now on: what its invariant calls "already existing" is
+            # everything allocated up to this point (not only what existed when the verified function was entered)
+            try:
+                rs_ = z3.simplify(res)
+                if z3.is_app(rs_) and rs_.decl().name() == "VRef" and z3.is_int_value(rs_.arg(0)) and \
+                        rs_.arg(0).as_long() >= old.next_id:
+                    self.st.ghost.setdefault("_obj_bounds", {}).setdefault(str(rs_), self.st.next_id)
+            except z3.Z3Exception:
+                pass
             if c.logged:
                 le = LogEntry(c.logged, [bound[n] for n in _param_order(fi)], {}, res, anchor)
                 le.pre = old          # heap at the time of the call
@@ -393,9 +431,11 @@ def verify_contract(index, table, contracts, c, axioms, timeout_ms=10000, max_pa
         if a.kwarg is not None:
             names.append(a.kwarg.arg)
         bound = {}
+        it._making_toplevel_params = True
         for nm in list(c.params) + [n for n in names if n not in c.params]:
             p = c.params.get(nm)
             bound[nm] = it.make_param(nm, p)
+        it._making_toplevel_params = False
         for nm, p_ in c.params.items():
             if p_ is not None and p_.kind == "obj" and not p_.inv and nm in bound:
                 st.ghost.setdefault("_constructing", {})[str(bound[nm])] = True
@@ -500,6 +540,9 @@ def verify_contract(index, table, contracts, c, axioms, timeout_ms=10000, max_pa
     res.solver_time = ex.solver_time
     for name, o in ex.obligations.items():
         o["props"] = sorted(prop_of.get(name, set(c.props)))
+        # discharged only on impossible paths = not checked (a goal that is literally False - "this point must not be
+        # reached" - is the exception: it can only ever be discharged by the path being impossible)
+        o["vacuous"] = (not o["failed"]) and o.get("live", 1) == 0 and not o.get("const_false", False)
         res.obligations[name] = o
     if res.status == "ok" and sum(res.exits.values()) == 0:
         res.vacuous = True
